@@ -837,6 +837,10 @@ class StmtMixin:
         # names assigned in the body but unbound at entry stay unbound (python would raise UnboundLocalError after zero iterations)
         for lbl, g in inv_clauses(h):
             h.assume(g)
+        for name in assigned:
+            # the hidden position variable of a `for` over a list / range / dict only ever counts up from 0
+            if name.startswith("$i") and name[2:].isdigit() and name in h.env and h.env[name].ty.kind == "int":
+                h.assume(h.env[name].t >= 0)
         if iv is not None and iv.defs:
             dargs = {k: v for k, v in h.env.items() if not k.startswith("$decl:")}
             dargs.update(extra)
